@@ -52,6 +52,7 @@ type Expect struct {
 	H     []int     `json:"h"`
 	Snaps []SnapExp `json:"snaps"`
 	Dg    []Val     `json:"dg"`
+	So    bool      `json:"so"` // no segment in top/mid/base at any level: only structural changes can be unpersisted
 }
 type Step struct {
 	Act string          `json:"act"`
@@ -66,6 +67,8 @@ type StepResult struct {
 	Mismatches []Mismatch `json:"mismatches,omitempty"`
 	Drift      []string   `json:"drift,omitempty"`
 	Heights    []int      `json:"heights,omitempty"`
+	Gz0        bool       `json:"gz0,omitempty"`
+	Abort      bool       `json:"abort,omitempty"` // the implementation legitimately left the model's path (drift)
 }
 
 // Result of one behaviour.
@@ -76,6 +79,7 @@ type Result struct {
 	Steps  []StepResult `json:"steps,omitempty"`
 	Shapes []string     `json:"shapes,omitempty"` // section-height shapes seen
 	Cross  bool         `json:"cross"`            // some read crossed a section boundary
+	Gz0    bool         `json:"gz0"`              // all dirty gauges were zero at some observation after the first batch
 }
 
 // Notifier is the (exported-method) merger notification API of a collection.
@@ -99,6 +103,7 @@ type Session struct {
 	onErr int
 	closeDone chan error
 	refs  []Content // expectations after each executed batch (TLC's, for prefix checks)
+	refsBeforeReopen []Content
 	life  string
 	failWrites int32
 	flog  *FileLog
@@ -407,6 +412,7 @@ func (s *Session) Do(st Step) error {
 		if err := s.Open(); err != nil {
 			return err
 		}
+		s.refsBeforeReopen = s.refs
 		if st.Exp.Nb < len(s.refs) {
 			s.refs = s.refs[:st.Exp.Nb]
 		}
@@ -475,13 +481,43 @@ func (s *Session) Observe(idx int, st Step, full bool) StepResult {
 		ss, err := s.coll.Snapshot()
 		if err != nil {
 			r.Mismatches = append(r.Mismatches, Mismatch{What: "snapshot.err", Got: err.Error()})
+		} else if st.Act == "Reopen" {
+			// C04: exactly the reference when persistence had caught up, else the reference after some prefix
+			mm := CheckSnapshot(ss, s.C, exp.Ref, s.D.Paths, "reopen")
+			if len(mm) > 0 {
+				found := -1
+				for j := len(s.refsBeforeReopen); j >= 0; j-- {
+					c := emptyContent(s.D)
+					if j > 0 {
+						c = s.refsBeforeReopen[j-1]
+					}
+					if len(CheckSnapshot(ss, s.C, c, s.D.Paths, "reopen")) == 0 {
+						found = j
+						break
+					}
+				}
+				if found >= 0 && exp.Nb < len(s.refsBeforeReopen) {
+					r.Drift = append(r.Drift, fmt.Sprintf("reopen yields prefix %d, model predicted %d", found, exp.Nb))
+					r.Abort = true
+				} else {
+					r.Mismatches = append(r.Mismatches, mm...)
+				}
+			}
+			ss.Close()
 		} else {
 			r.Mismatches = append(r.Mismatches, CheckSnapshot(ss, s.C, exp.Ref, s.D.Paths, "snapshot")...)
 			ss.Close()
 		}
 		// C20: zero gauges mean everything is in the lower level
 		if cs != nil && s.D.Mode != "mem" && cs.CurDirtyOps == 0 && cs.CurDirtyBytes == 0 && cs.CurDirtySegments == 0 {
-			r.Mismatches = append(r.Mismatches, s.checkLower(exp.Ref, "gauges0.lower")...)
+			gm := s.checkLower(exp.Ref, "gauges0.lower")
+			if exp.So {
+				for i := range gm {
+					gm[i].Note = "structure-only"
+				}
+			}
+			r.Mismatches = append(r.Mismatches, gm...)
+			r.Gz0 = len(s.refs) > 0
 		}
 		if cs != nil && exp.Gz != (cs.CurDirtyOps == 0 && cs.CurDirtyBytes == 0 && cs.CurDirtySegments == 0) {
 			r.Drift = append(r.Drift, fmt.Sprintf("gauges zero: model %v impl ops=%d segs=%d", exp.Gz, cs.CurDirtyOps, cs.CurDirtySegments))
@@ -583,11 +619,17 @@ func Replay(id int, d Dims, steps []Step) (res Result) {
 				res.Cross = true
 			}
 		}
+		if sr.Gz0 {
+			res.Gz0 = true
+		}
 		if len(sr.Mismatches) > 0 || len(sr.Drift) > 0 {
 			res.Steps = append(res.Steps, sr)
 		}
 		if len(sr.Mismatches) > 0 {
 			bad = true
+		}
+		if sr.Abort {
+			break
 		}
 	}
 	for k := range shapes {
